@@ -24,7 +24,7 @@ class Spec(pipeprops.PropSpec):
                    "the figure of '+' or of some exact cardinality k>1 of the same (property, kind) (documented behaviour)"]
 
     def gen_cases(self, tier, rnd):
-        return pipeprops.gen_basic(tier, rnd, 2500, 40000) + pipemap.stream(tier, rnd, 600, 10000, only_iri=True)
+        return pipeprops.gen_basic(tier, rnd, 2500, 40000) + pipemap.stream(tier, rnd, 1000, 10000, only_iri=True)
 
     def oracle(self, case, impl):
         ts, cfg = case["runs"][0]
